@@ -511,12 +511,12 @@ def c01_pipe_jobs(tier, seed):
             # the totality-specific templates get the larger share; the others are explored by C02..C19 as well (clean, list)
             budget, limit = (4, 4) if extra else (3, 1)
         else:
-            budget, limit = (6, 40) if extra else (6, 12)
+            budget, limit = (5, 10) if extra else (5, 3)
         vs = variants(tpl, budget, 3, rnd, limit)
         for sizes in vs:
             if sum(sizes) < min(budget, 2) and len(vs) > 2:
                 continue
-            for cname, cfg in (cfgs if extra and tier != 'quick' else cfgs[:1]):
+            for cname, cfg in (cfgs[:2] if extra and tier != 'quick' else cfgs[:1]):
                 jobs.append(dict(harness='c01_pipe', label=f'{name} holes={sizes} cfg={cname}',
                                  params=dict(tpl=instantiate(tpl, sizes), cfg=cfg, wrapper='wrapper' in name)))
     return jobs
